@@ -851,3 +851,17 @@ M("C16-break-edge-iterators-skip-one", "C16", "src/interrogate/interrogate_modul
 M("C02-benign-nonconst-ref-eq-false", "C02", "src/interrogate/typeManager.cxx",
   "  case CPPDeclaration::ST_reference:\n    return !is_const(type->as_reference_type()->_pointing_at);", "  case CPPDeclaration::ST_reference:\n    return is_const(type->as_reference_type()->_pointing_at) == false;",
   benign=True)
+
+M("C05-default-access-from-base-key", "C05", "src/cppparser/cppStructType.cxx",
+  "    if (vis == V_unknown) {\n      // Default visibility: this is determined by the class-key of the\n      // deriving class, not by that of the base class.\n      if (_type == T_class) {",
+  "    if (vis == V_unknown && base->as_extension_type() != nullptr) {\n      // Default visibility.\n      if (base->as_extension_type()->_type == T_class) {",
+  expect="R05.6|append_derivation|V_private|own-class-key")
+M("C05-default-access-polarity", "C05", "src/cppparser/cppStructType.cxx",
+  "      if (_type == T_class) {\n        vis = V_private;\n      } else {\n        vis = V_public;\n      }", "      if (_type == T_class) {\n        vis = V_public;\n      } else {\n        vis = V_private;\n      }",
+  expect="R05.6|append_derivation|V_public|own-class-key")
+M("C05-default-access-only-for-extension-bases", "C05", "src/cppparser/cppStructType.cxx",
+  "    if (vis == V_unknown) {\n      // Default visibility: this", "    if (vis == V_unknown && base->as_extension_type() != nullptr) {\n      // Default visibility: this",
+  expect="R05.6|append_derivation|always-defaulted")
+M("C05-benign-default-access-struct-test", "C05", "src/cppparser/cppStructType.cxx",
+  "      if (_type == T_class) {\n        vis = V_private;\n      } else {\n        vis = V_public;\n      }", "      if (_type != T_class) {\n        vis = V_public;\n      } else {\n        vis = V_private;\n      }",
+  benign=True)
